@@ -188,6 +188,12 @@ type World struct {
 	balCause map[string]map[string]bool
 	balStart map[string]*uint256.Int // model balances when the current block began
 
+	// C17: reference EVM world (nil in the other checks)
+	EVM         *EVMRef
+	Dead        map[string]bool // self-destructed contract addresses (retired, see F10b)
+	txIdx       int
+	evmDiverged bool
+
 	// PeekDelegatee lets the model look at the application's uncommitted consensus view
 	// (only used where the property leaves the rule open, see the jailing window)
 	PeekDelegatee func(addr []byte) bool
@@ -214,7 +220,7 @@ func NewWorld(g *Genesis) *World {
 		GenesisTotal: u256(0), Withdrawn: u256(0), Slashed: u256(0), LostFees: u256(0),
 		succeeded: map[string]int64{}, Contracts: map[string]string{}, everProposals: map[string]bool{},
 		PreMiss: map[string]int{}, Feat: map[string]int{}, Excluded: map[string]int{},
-		Expected: map[int64]map[string]SetEntry{}, ParamsAt: map[int64]*Params{},
+		Expected: map[int64]map[string]SetEntry{}, ParamsAt: map[int64]*Params{}, Dead: map[string]bool{},
 	}
 	for _, b := range g.Balances {
 		a := w.acct(actorNamed(b.Actor).Addr)
@@ -257,7 +263,11 @@ func (w *World) acct(addr []byte) *MAcct {
 
 func (w *World) cause(addr []byte, c string) {
 	if w.balCause == nil {
-		w.balCause = map[string]map[string]bool{}
+		w.txIdx = 0
+	if w.EVM != nil {
+		w.EVM.BeginBlock()
+	}
+	w.balCause = map[string]map[string]bool{}
 	w.balStart = map[string]*uint256.Int{}
 	for k, a := range w.Accts {
 		w.balStart[k] = a.Bal.Clone()
@@ -323,6 +333,10 @@ func (w *World) BeginBlock(b *Block) {
 	w.issuedBlock = u256(0)
 	w.blockStartD = w.delegAt[h-1]
 	w.delegDeletedThisBlock, w.delegOps, w.withdrawsThisBlock = nil, nil, nil
+	w.txIdx = 0
+	if w.EVM != nil {
+		w.EVM.BeginBlock()
+	}
 	w.balCause = map[string]map[string]bool{}
 	w.balStart = map[string]*uint256.Int{}
 	for k, a := range w.Accts {
@@ -743,6 +757,10 @@ func (w *World) Commit() {
 	}
 	for _, pr := range w.Frozen {
 		pr.CommittedFrozen = true
+	}
+	if w.EVM != nil {
+		w.EVM.syncIn(w, w.EVM.db)
+		w.EVM.EndBlock(h)
 	}
 	w.cur = nil
 }
